@@ -4,17 +4,29 @@
 #include "mm.h"
 #include "oracle_split.h"
 #include "checks.h"
+#ifdef GENTEXT
+#include "gen.h"
+#endif
 #ifndef NMAX
 #define NMAX 4
 #endif
 #ifndef NMIN
 #define NMIN 0
 #endif
+#ifndef GENK
+#define GENK 1
+#endif
+#ifndef GENL
+#define GENL 1
+#endif
 
 int main(void){
   URI uri; const CH *errorPos = 0; int rc; long n, i;
   CH *buf;
-#ifdef IP6GEN
+#ifdef GENTEXT
+  /* shape-bounded text over the FULL character classes (compile with -DGEN_WIDE_CHARS): longer, structured inputs than raw N characters reach */
+  { CH tmp[GEN_CAP(2, 2) + 8]; n = gen_uri(tmp, GENTEXT, GENK, GENL, "g"); buf = uk_buf((size_t)n * sizeof(CH), "text"); for (i = 0; i < n; i++) buf[i] = tmp[i]; }
+#elif defined(IP6GEN)
   /* shape-bounded IPv6 literal "//[" ... "]": group layout, zipper position, optional IPv4 tail are skeleton choices (valid AND
      invalid layouts); plain groups are one symbolic letter a..f; one "wide" group has 1..5 symbolic decimal (IP6_WIDE_HEX: hex, both cases) digits; one IPv4 octet
      has 1..4 symbolic digits.  Reaches the quad / zipper / octet counters that raw N-character exploration cannot. */
